@@ -49,10 +49,9 @@ def handle (p : List Sexp) : String :=
     match str? n, cols.mapM parseCol, pk.mapM str?, keys.mapM parseKey, str? c with
     | some n, some cols, some pk, some keys, some c =>
       let t : Table := { name := n, cols := cols, pk := pk, keys := keys, comment := c }
-      let impl := hexS (showTable false t)
-      -- Spec: a text that reads back; it differs from the Go text only inside the region
-      if indexCommentUnsafe t then answer impl (hexS (showTable true t)) "index_comment_unescaped"
-      else answer impl
+      -- `index_comment_unescaped` was repaired (`Gms.C22.index_comment_round_trip`): the Go text is the
+      -- Spec text (every comment escaped) on every case, there is no region any more
+      answer (hexS (showTable t))
     | _, _, _, _, _ => answer "bad-case"
   | [.list [.atom "object", _]] => answer "object"      -- views / triggers / procedures: oracle only
   | _ => answer "bad-case"
